@@ -139,7 +139,7 @@ class C07(Check):
         "HSFZ gateway": "stub: emits what the plan says, independent header codec",
     }
     shrink_lists = ["ops", "reactions", "reactions.0", "reactions.1", "reactions.2", "reactions.3", "unsolicited"]
-    quick_runs = 24000
+    quick_runs = 60000
     thorough_runs = 1500000
     chunk = 300
 
